@@ -9,12 +9,16 @@
     T17.1  full   numeral ↔ value bijection, canonical shape, parse ∘ format, grammar
     T17.2  full   digit-batch decoder, limb-aligned decoder (2, 4, 16) and the three public parse
                   entry points, every radix 2..36
-    T17.3  output stage full; the two buffer-filling loops are carried as named hypotheses
-           (`_partial`); proved NEGATIONS for the defects of the unchanged tree.
+    T17.3  power-of-two radix encoder (shifting loop): full.  Division encoder (limb-division loop,
+           32-limb large-divisor loop, `radix_large_divisor` table): full for the radices without a
+           normalising shift (3, 9, 10, 19, 23, 29, 30) and, for every radix, full for the encoder with
+           the repaired test `limbs[limb_count-1] < div_limb`; for the code as written the remaining
+           radices carry `H_nowrap` (`_partial`) — its negation is the proved witness of finding
+           C17-encode-wrapped-shift.
+    T17.4  round trip at limb level: parse (format x) = x for Uint / BoxedUint / with precision.
   Value-level calls: `div2by1`, `div_rem_vartime_in_place` (exactness: C02), `bits` (C05).
 -/
-import CB.Lemmas.C17Aligned
-import CB.Lemmas.C17Encode
+import CB.Lemmas.C17Round
 namespace CB.P17
 open CB CB.Radix
 
@@ -136,9 +140,7 @@ theorem aligned_decoder_exact {radix : Nat} (ha : radix = 2 ∨ radix = 4 ∨ ra
 /-- `radix_decode_str`, every supported radix -/
 theorem decode_str_exact {radix : Nat} (h2 : 2 ≤ radix) (h36 : radix ≤ 36) (s : List Nat)
     (cap : Option Nat) : DecodeCorrect radix s cap (decodeStr radix s ⟨cap, []⟩) := by
-  by_cases ha : radix = 2 ∨ radix = 4 ∨ radix = 16
-  · rw [decodeStr_aligned ha]; exact decodeAligned_correct ha s cap
-  · rw [decodeStr_batch h2 h36 ha]; exact decodeDigits_correct h2 h36 s cap
+  exact decodeStr_correct h2 h36 s cap
 
 /-- `Uint::<n>::from_str_radix_vartime` / `num_traits::Num::from_str_radix`, every radix 2..36: exact value when it fits; `InputSize` iff `value ≥ 2^BITS`; NEVER a wrapped or
 truncated value (last clause); `Empty` for the empty numeral; a non-numeral is rejected. -/
@@ -174,6 +176,16 @@ theorem boxed_from_str_radix_with_precision_exact {radix p : Nat} (h2 : 2 ≤ ra
     (specParse radix s = .error .empty → boxedFromStrPrec radix p s = .error .empty) := by
   apply boxedFromStrPrec_of_correct
   exact decode_str_exact h2 h36 s _
+
+/-- … and it never accepts a non-numeral, never returns a wrapped or truncated value: an accepted
+result is the numeral's value, below `2^bits_precision`, in `max 1 ⌈p/64⌉` limbs -/
+theorem boxed_from_str_radix_with_precision_sound {radix p : Nat} (h2 : 2 ≤ radix) (h36 : radix ≤ 36)
+    (s : List Nat) :
+    (specParse radix s = .error .invalidDigit →
+      boxedFromStrPrec radix p s = .error .invalidDigit ∨ boxedFromStrPrec radix p s = .error .inputSize) ∧
+    (∀ l, boxedFromStrPrec radix p s = .ok l →
+      ∃ v, specParse radix s = .ok v ∧ v < 2 ^ p ∧ l = toLimbs (precLimbs p) v) :=
+  boxedFromStrPrec_sound h2 h36 s
 
 /-- documented panic for a radix outside 2..=36 -/
 theorem unsupported_radix_panics {radix : Nat} (h : ¬ (2 ≤ radix ∧ radix ≤ 36)) (s l : List Nat)
@@ -219,38 +231,76 @@ yields exactly the canonical numeral (`"0"` for zero, no leading zeros otherwise
 theorem buffer_to_numeral {r : Nat} (hr : 2 ≤ r) {n x : Nat} (hn : 0 < n) (hx : x < r ^ n) :
     skipZeros ((digitsPad r n x).map digitChar) = specFormat r x := skipZeros_padded hr hn hx
 
-/- FULL STATEMENT (unproved; FALSE of the code as written for the division path, see the witness
-   `encode_wrapped_shift_witness`):
-     ∀ radix ∈ 2..36, ∀ limbs ≠ [], WF limbs →
-       encodeToString radix limbs = .ok (specFormat radix (val limbs))
-   Proved below: it follows from the single fact that the buffer-filling loop
-   (`radix_encode_limbs_by_shifting`, resp. `RadixDivisionParams::encode_limbs` including the
-   large-divisor recursion) writes the zero-padded expansion — hypotheses `H_shift` / `H_div`. -/
-theorem encode_pow2_partial {radix : Nat} (h2 : 2 ≤ radix) (h36 : radix ≤ 36) (hp : isPow2 radix = true)
-    {limbs : List Nat} (hne : limbs ≠ []) (hw : WF limbs)
-    (H_shift : let size := (limbs.length * 64 + trailingZeros radix - 1) / trailingZeros radix
-      encodeByShifting radix limbs size = (digitsPad radix size (val limbs)).map digitChar) :
+/-- T17.3, power-of-two radix (2, 4, 8, 16, 32), FULL: `radix_encode_limbs_by_shifting` (the wide
+`digits` accumulator over `limbs ++ [0]`, `(digits as u8) & mask`, the final `fill(b'0')`) followed by
+the leading-zero strip returns the canonical numeral, for every limb count and value -/
+theorem encode_pow2_exact {radix : Nat} (h2 : 2 ≤ radix) (h36 : radix ≤ 36) (hp : isPow2 radix = true)
+    {limbs : List Nat} (hne : limbs ≠ []) (hw : WF limbs) :
     encodeToString radix limbs = .ok (specFormat radix (val limbs)) := by
   have hs := pow2_size_ok h2 hp hne hw
   unfold encodeToString
   rw [radixMin_eq, radixMax_eq, if_neg (by omega), if_pos hp]
-  simp only at H_shift ⊢
-  rw [H_shift, skipZeros_padded h2 hs.1 hs.2]
+  simp only
+  rw [encodeByShifting_pow2 h2 h36 hp hw, skipZeros_padded h2 hs.1 hs.2]
 
+/-- T17.3, division path, FULL for the radices whose limb divisor `radix^ilog(radix)` needs no
+normalising shift (3, 9, 10, 19, 23, 29, 30 — decimal included): `RadixDivisionParams::encode_limbs`
+(limb-division loop; for more than 32 limbs the large-divisor loop with the recursive 32-limb
+encoding of each remainder; table `ALL` / `radix_large_divisor` evaluated in the kernel) followed by
+the leading-zero strip returns the canonical numeral, for every limb count and value.
+`div2by1` / `div_rem_vartime_in_place` are value-level (C02). -/
+theorem encode_div_exact_shift0 {radix : Nat} (hr : radix ∈ [3, 9, 10, 19, 23, 29, 30])
+    {limbs : List Nat} (hne : limbs ≠ []) (hw : WF limbs) :
+    encodeToString radix limbs = .ok (specFormat radix (val limbs)) := by
+  obtain ⟨p, hpar, h0⟩ := forRadix_shift0 hr
+  have hb : 2 ≤ radix ∧ radix ≤ 36 ∧ isPow2 radix = false := by
+    have : ∀ r ∈ [3, 9, 10, 19, 23, 29, 30], 2 ≤ r ∧ r ≤ 36 ∧ isPow2 r = false := by decide
+    exact this radix hr
+  have hs := div_size_ok hb.1 hb.2.1 hpar hne hw
+  have hg := forRadix_good hpar
+  unfold encodeToString
+  rw [radixMin_eq, radixMax_eq, if_neg (by omega)]
+  simp only [hb.2.2, Bool.false_eq_true, if_false, hpar]
+  rw [encodeLimbs_spec_shift0 hg h0 hw, (forRadix_digitsLimb hpar).1, skipZeros_padded hb.1 hs.1 hs.2]
+
+/-- T17.3, division path with the REPAIRED test (`limbs[limb_count - 1] < div_limb`, the one-token
+repair proposed for finding C17-encode-wrapped-shift), FULL: every radix 2..36 that is not a power
+of two, every limb count and value. This is the statement the code as written was meant to satisfy;
+it becomes the theorem about `encodeToString` once the repair is in the crate. -/
+theorem encode_div_repaired_exact {radix : Nat} (h2 : 2 ≤ radix) (h36 : radix ≤ 36)
+    (hp : isPow2 radix = false) {limbs : List Nat} (hne : limbs ≠ []) (hw : WF limbs) :
+    encodeToStringR radix limbs = .ok (specFormat radix (val limbs)) := by
+  obtain ⟨p, hpar⟩ := forRadix_ok radix (by omega) h2 hp
+  have hs := div_size_ok h2 h36 hpar hne hw
+  have hg := forRadix_good hpar
+  unfold encodeToStringR
+  rw [radixMin_eq, radixMax_eq, if_neg (by omega)]
+  simp only [hp, Bool.false_eq_true, if_false, hpar]
+  rw [encodeLimbsR_spec hg hw, (forRadix_digitsLimb hpar).1, skipZeros_padded h2 hs.1 hs.2]
+
+/- FULL STATEMENT (FALSE of the code as written for radix 7, 17, 21, 25, 27, 31, 33, 35 — witness
+   `encode_wrapped_shift_witness`; unproved for the other radices with a normalising shift):
+     ∀ radix ∈ 2..36, ¬ isPow2 radix → ∀ limbs ≠ [], WF limbs →
+       encodeToString radix limbs = .ok (specFormat radix (val limbs))
+   Proved below: it holds whenever the wrapping test `limbs[limb_count-1] << lshift < div_limb`
+   never decides differently from `limbs[limb_count-1] < div_limb` on this input, i.e. the code as
+   written computes what the repaired code computes — hypothesis `H_nowrap`. -/
 theorem encode_div_partial {radix : Nat} (h2 : 2 ≤ radix) (h36 : radix ≤ 36) (hp : isPow2 radix = false)
     {limbs : List Nat} (hne : limbs ≠ []) (hw : WF limbs) {p : DivParams} (hpar : forRadix radix = .ok p)
-    (H_div : let size := limbs.length * (p.digitsLimb + 1)
-      encodeLimbs p limbs size = (digitsPad radix size (val limbs)).map digitChar) :
+    (H_nowrap : let size := limbs.length * (p.digitsLimb + 1)
+      encodeLimbs p limbs size = encodeLimbsR p limbs size) :
     encodeToString radix limbs = .ok (specFormat radix (val limbs)) := by
   have hs := div_size_ok h2 h36 hpar hne hw
+  have hg := forRadix_good hpar
   unfold encodeToString
   rw [radixMin_eq, radixMax_eq, if_neg (by omega)]
   simp only [hp, Bool.false_eq_true, if_false, hpar]
-  simp only at H_div
-  rw [H_div, skipZeros_padded h2 hs.1 hs.2]
+  simp only at H_nowrap
+  rw [H_nowrap, encodeLimbsR_spec hg hw, (forRadix_digitsLimb hpar).1, skipZeros_padded h2 hs.1 hs.2]
 
-/-- non-vacuity of the two hypotheses: they hold (by evaluation) for `255` in base 16 and base 10 -/
-example : encodeByShifting 16 [255] 16 = (digitsPad 16 16 255).map digitChar := by decide +kernel
+/-- non-vacuity: decimal, two limbs; `H_nowrap` holds (by evaluation) for a base-7 value -/
+example : encodeToString 10 [0, 1] = .ok (specFormat 10 (val [0, 1])) :=
+  encode_div_exact_shift0 (by decide) (by simp) (by intro x hx; simp at hx; rcases hx with h | h <;> subst h <;> decide)
 
 /-- the 14-limb value on which `to_string_radix_vartime(31)` loses its leading digit -/
 def wrapWitness : Nat := 0x13c4348132f0ae20bc4e1e1dd7a8c71526e185780bb5c91686df58d9fc90c3440be592dd5a1c54b2f9fc1085cc6f2bc343b805e056492684f7992bed4957b27c9638c0e2a67542a6b11f318f6cccfda8a457a18a37e9a11739c61ec820325f4b0f71eda9082af1b01000000000003039
@@ -269,5 +319,46 @@ theorem encode_wrapped_shift_witness :
 /-- NEGATION (DESIGN §7 row 5): a zero-limb value formats as the empty string, not `"0"` -/
 theorem format_zero_limbs_is_empty : encodeToString 10 [] = .ok [] ∧ specFormat 10 (val []) = [48] :=
   ⟨rfl, rfl⟩
+
+/-! ## T17.4 — round trip at limb level -/
+
+/-- `Uint::from_str_radix_vartime(canonical numeral of x, radix) = x` limb for limb, every radix
+2..36 and limb count (batch decoder or aligned decoder, as dispatched) -/
+theorem uint_parse_of_format {radix : Nat} (h2 : 2 ≤ radix) (h36 : radix ≤ 36) {limbs : List Nat}
+    (hw : WF limbs) : uintFromStr limbs.length radix (specFormat radix (val limbs)) = .ok limbs := by
+  have h := (uint_from_str_radix_exact (n := limbs.length) h2 h36 (specFormat radix (val limbs))).1
+    (val limbs) (parse_format h2 h36 _) (val_lt hw)
+  rw [h, toLimbs_val hw]
+
+/-- `BoxedUint::from_str_radix_vartime(canonical numeral of x) ` has value `x` -/
+theorem boxed_parse_of_format {radix : Nat} (h2 : 2 ≤ radix) (h36 : radix ≤ 36) (x : Nat) :
+    ∃ l, boxedFromStr radix (specFormat radix x) = .ok l ∧ val l = x ∧ WF l :=
+  (boxed_from_str_radix_exact h2 h36 _).1 x (parse_format h2 h36 x)
+
+/-- with precision: the numeral of any `x < 2^p` parses to `x` in `max 1 ⌈p/64⌉` limbs -/
+theorem boxed_prec_parse_of_format {radix p : Nat} (h2 : 2 ≤ radix) (h36 : radix ≤ 36) {x : Nat}
+    (hx : x < 2 ^ p) : boxedFromStrPrec radix p (specFormat radix x) = .ok (toLimbs (precLimbs p) x) :=
+  (boxed_from_str_radix_with_precision_exact h2 h36 _).1 x (parse_format h2 h36 x) hx
+
+/-- `parse (to_string x) = x` through the crate's own encoder AND decoder models, power-of-two radix -/
+theorem uint_roundtrip_pow2 {radix : Nat} (h2 : 2 ≤ radix) (h36 : radix ≤ 36) (hp : isPow2 radix = true)
+    {limbs : List Nat} (hne : limbs ≠ []) (hw : WF limbs) :
+    ∃ s, encodeToString radix limbs = .ok s ∧ uintFromStr limbs.length radix s = .ok limbs :=
+  ⟨_, encode_pow2_exact h2 h36 hp hne hw, uint_parse_of_format h2 h36 hw⟩
+
+/-- … and for the division radices without a normalising shift (decimal included) -/
+theorem uint_roundtrip_shift0 {radix : Nat} (hr : radix ∈ [3, 9, 10, 19, 23, 29, 30])
+    {limbs : List Nat} (hne : limbs ≠ []) (hw : WF limbs) :
+    ∃ s, encodeToString radix limbs = .ok s ∧ uintFromStr limbs.length radix s = .ok limbs := by
+  have hb : 2 ≤ radix ∧ radix ≤ 36 := by
+    have : ∀ r ∈ [3, 9, 10, 19, 23, 29, 30], 2 ≤ r ∧ r ≤ 36 := by decide
+    exact this radix hr
+  exact ⟨_, encode_div_exact_shift0 hr hne hw, uint_parse_of_format hb.1 hb.2 hw⟩
+
+/-- non-vacuity: `2^64` as a two-limb value in base 16 and base 10 -/
+example : WF [0, 1] ∧ uintFromStr [0, 1].length 16 (specFormat 16 (val [0, 1])) = .ok [0, 1] ∧
+    uintFromStr [0, 1].length 10 (specFormat 10 (val [0, 1])) = .ok [0, 1] := by
+  have hw : WF [0, 1] := by intro x hx; simp at hx; rcases hx with h | h <;> subst h <;> decide
+  exact ⟨hw, uint_parse_of_format (by decide) (by decide) hw, uint_parse_of_format (by decide) (by decide) hw⟩
 
 end CB.P17
